@@ -69,7 +69,7 @@ def gen_export(r, dense_assign=False):
             c["max_size"] = r.choice([2.5, -3, "4"])
         courses[str(cid)] = c
     e["courses"] = courses
-    nr_ = r.randint(1, 10)
+    nr_ = r.randint(1, 10) if r.random() < 0.4 else r.randint(4, 12)
     rids = r.sample(range(1, 60), nr_)
     regs = {}
     for rid in rids:
@@ -81,6 +81,8 @@ def gen_export(r, dense_assign=False):
         for t, _ in tracks:
             ch = r.sample(cids, r.randint(0, min(4, nc)))
             assigned = r.choice(([None] if not dense_assign else []) + [None] + cids)
+            if dense_assign and r.random() < 0.35:
+                assigned = None      # enough people are left for the optimiser under --ignore-assigned
             instr = r.choice([None] * 5 + cids)
             if dense_assign and instr is not None and r.random() < 0.5:
                 assigned = instr
